@@ -127,6 +127,20 @@ func CallArgs(c *ssa.CallCommon) []ssa.Value {
 		}
 		args, f = mapped, fi.inner
 	}
+	// arguments in the recorded parameter order of a recorded function whose parameter list changed
+	if f != nil {
+		if o := recordedOrder(f); o != nil {
+			re := make([]ssa.Value, len(o))
+			for i, j := range o {
+				if j >= 0 && j < len(args) {
+					re[i] = args[j]
+				} else {
+					re[i] = ssa.NewConst(nil, types.Typ[types.UntypedNil])
+				}
+			}
+			return re
+		}
+	}
 	return args
 }
 
@@ -134,10 +148,7 @@ func callArgsRaw(c *ssa.CallCommon) []ssa.Value {
 	if c.IsInvoke() {
 		return append([]ssa.Value{c.Value}, c.Args...)
 	}
-	if f, ok := c.Value.(*ssa.Function); ok && recvDropped[f] {
-		// the recorded method had a receiver first: keep the recorded argument positions
-		return append([]ssa.Value{ssa.NewConst(nil, types.Typ[types.UntypedNil])}, c.Args...)
-	}
+
 	if mc, ok := c.Value.(*ssa.MakeClosure); ok {
 		// bound method closure: bindings are the receiver
 		if f, ok := mc.Fn.(*ssa.Function); ok && strings.HasSuffix(f.Name(), "$bound") {
